@@ -73,6 +73,8 @@ pub struct E1<'c> {
     pub spec_reader_defect_seen: bool,
     /// cyclic programs: reference values of every world in which a request was made (oldest first)
     pub past_vals: Vec<Vec<u32>>,
+    /// fixpoint programs: what the members' memos recorded right before each write (step, infos)
+    pub memo_snapshots: Vec<(usize, Vec<MemoInfo>)>,
 }
 
 pub fn expected_obs(ev: &mut Eval, prog: &Program, n: usize, arg: u32, deep: bool) -> Result<Obs, Abort> {
@@ -150,7 +152,7 @@ impl<'c> E1<'c> {
         fault::MASK.store(case.fault_mask, SeqCst);
         let db = SimDatabase::new(&case.prog, &world);
         let oracles = crate::oracles::for_case(case);
-        E1 { case, db: Some(db), world, out: RunOut::default(), step: 0, never: Default::default(), oracles, queries: 0, cycle_panicked_in_rev: false, fb_defect_seen: false, injected_now: false, poisoned_now: false, injected_in_rev: false, last_fault_cb: None, stop_run: false, restored_ts_stale: false, held: vec![], spec_readers: Default::default(), spec_reader_defect_seen: false, past_vals: vec![] }
+        E1 { case, db: Some(db), world, out: RunOut::default(), step: 0, never: Default::default(), oracles, queries: 0, cycle_panicked_in_rev: false, fb_defect_seen: false, injected_now: false, poisoned_now: false, injected_in_rev: false, last_fault_cb: None, stop_run: false, restored_ts_stale: false, held: vec![], spec_readers: Default::default(), spec_reader_defect_seen: false, past_vals: vec![], memo_snapshots: vec![] }
     }
 
     fn db(&self) -> &SimDatabase {
@@ -391,14 +393,18 @@ impl<'c> E1<'c> {
                         // converge) and a missing dependency has been written since
                         if let Some(cr) = cr_opt.as_ref() {
                             if self.out.revisions > 0 && !prog.nodes.iter().any(|x| x.kind == Kind::Fb) {
-                                let infos: Vec<MemoInfo> = (prog.blk_lo as usize..prog.blk_hi as usize).filter_map(|x| memo_info(self.db(), x)).collect();
-                                let mut written = std::collections::BTreeSet::new();
-                                for s in &self.case.hist[..self.step.min(self.case.hist.len())] {
-                                    if let Step::SetIn { i, f, .. } = s {
-                                        written.insert((*i as usize, *f as usize));
+                                // the memos as they were before a write (finalized legitimately in
+                                // their own revision), against the fields written since
+                                let mut bad = vec![];
+                                for (s0, infos) in &self.memo_snapshots {
+                                    let mut written = std::collections::BTreeSet::new();
+                                    for s in &self.case.hist[(*s0).min(self.case.hist.len())..self.step.min(self.case.hist.len())] {
+                                        if let Step::SetIn { i, f, .. } = s {
+                                            written.insert((*i as usize, *f as usize));
+                                        }
                                     }
+                                    bad.extend(crate::refcyc::incomplete_participants(cr, infos, &written));
                                 }
-                                let bad = crate::refcyc::incomplete_participants(cr, &infos, &written);
                                 if !bad.is_empty() {
                                     self.out.viol("cycle_participant_incomplete_deps", step, format!("node {n}: expected {e:?} got {g:?}; finalized members with unrecorded, written dependencies: {bad:?}"));
                                     self.stop_run = true;
@@ -548,6 +554,13 @@ impl<'c> E1<'c> {
             match st {
             Step::SetIn { i, f, v, d } => {
                 let (i, f) = (*i as usize, *f as usize);
+                {
+                    let prog = &self.case.prog;
+                    if prog.is_cyclic() && !prog.nodes.iter().any(|x| x.kind == Kind::Fb) {
+                        let infos: Vec<MemoInfo> = (prog.blk_lo as usize..prog.blk_hi as usize).filter_map(|x| memo_info(self.db(), x)).collect();
+                        self.memo_snapshots.push((si, infos));
+                    }
+                }
                 let frozen = self.never.contains(&(i, f));
                 let r = self.mutating(|db| db.set_in(i, f, *v, *d));
                 self.new_revision_note();
